@@ -160,6 +160,10 @@ type vfIdP struct {
 	w      *vfWorld
 	mu     sync.Mutex
 	issuer string
+	host   string // host name the browser sees in the authorization URL
+	prefix string // path of the issuer URL (endpoints live below it)
+	// ConnPlan decides connection-level (TLS) trouble per incoming connection of a node served over TLS
+	ConnPlan func(task string) string
 
 	keys      []*vfKey
 	Signing   int   // key index used for signing
@@ -197,14 +201,31 @@ type vfIdP struct {
 }
 
 func (w *vfWorld) StartIdP() *vfIdP {
-	p := &vfIdP{w: w, keys: append([]*vfKey(nil), vfLoadKeys()...), issuer: "http://" + vfIdpHost, users: map[string]*vfUser{}, codes: map[string]*vfCode{},
+	iss := "http://" + vfIdpHost
+	if w.idpURL != "" {
+		iss = w.idpURL
+	}
+	iu, err := url.Parse(iss)
+	if err != nil {
+		w.fatalf("idp url: %v", err)
+	}
+	p := &vfIdP{w: w, keys: append([]*vfKey(nil), vfLoadKeys()...), issuer: iss, host: iu.Host, prefix: strings.TrimSuffix(iu.Path, "/"), users: map[string]*vfUser{}, codes: map[string]*vfCode{},
 		rtIndex: map[string]*vfGrant{}, atGrant: map[string]*vfGrant{}, atGen: map[string]int{}, ATInvalid: map[string]bool{},
 		Signing: 0, Published: []int{0, 1, 2}, RefreshSupported: true, IDTokenTTL: 2 * time.Hour, AccessTTL: 2 * time.Hour}
 	p.AddUser(&vfUser{Name: "alice", Sub: "sub-alice", Email: "alice@example.com", EmailVerified: true, Groups: []string{"dev", "ops"}, PreferredUsername: "alice.p"})
 	p.AddUser(&vfUser{Name: "bob", Sub: "sub-bob", Email: "bob@other.org", EmailVerified: true, Groups: []string{"sales"}, PreferredUsername: "bobby"})
 	p.AddUser(&vfUser{Name: "carol", Sub: "sub-carol", Email: "carol@example.com", EmailVerified: true, Groups: []string{}, PreferredUsername: "carol"})
 	w.idp = p
-	w.net.Serve(vfIdpHost+":80", p)
+	if iu.Scheme == "https" {
+		w.net.ServeTLS(w, iu.Host+":443", p, func(task string) string {
+			if p.ConnPlan != nil {
+				return p.ConnPlan(task)
+			}
+			return ""
+		})
+	} else {
+		w.net.Serve(iu.Host+":80", p)
+	}
 	return p
 }
 
@@ -457,7 +478,7 @@ func (p *vfIdP) ServeHTTP(rw http.ResponseWriter, r *http.Request) {
 	if a := r.Header.Get("Authorization"); strings.HasPrefix(a, "Bearer ") {
 		call.Bearer = a[7:]
 	}
-	switch r.URL.Path {
+	switch strings.TrimPrefix(r.URL.Path, p.prefix) {
 	case "/.well-known/openid-configuration":
 		call.Endpoint = "discovery"
 	case "/jwks":
